@@ -32,6 +32,7 @@ func init() {
 		&Rule{ID: "PG-ERR", Doc: "no error returned inside package parser is discarded", Run: rulePGErr, Min: 10},
 		&Rule{ID: "PG-TERMS", Doc: "every scalar term the parser produces has the type of the grammar alternative it was read from and is computed from that alternative's text only (Integer from Integer, String from String, Variable from Variable, Bool from Bool, Date from Date, Bytes from Bytes)", Run: rulePGTerms, Min: 6},
 		&Rule{ID: "PG-LITERAL", Doc: "malformed literals, variables in sets and unbound parameters are reported on every path", Run: rulePGLiteral, Min: 3},
+		&Rule{ID: "PR-FORMAT", Doc: "no printed content is used as a format: every format string of the fmt functions called in the repository is a constant (or an entry of a package-level table of constants)", Run: rulePRFormat, Min: 20},
 		&Rule{ID: "PR-TABLE", Doc: "a token prints each of its blocks with the token-wide symbol table itself (the one the authorizer resolves with), and the block printers resolve with the table they were given", Run: rulePRTable, Min: 4},
 		&Rule{ID: "PR-OPSYM", Doc: "the printer's symbol for every operator is the one the parser reads for it", Run: rulePROpSym, Min: 20},
 		&Rule{ID: "PR-KEYWORD", Doc: "printer keywords and delimiters are the ones the grammar reads", Run: rulePRKeyword, Min: 8},
@@ -1744,6 +1745,74 @@ func rulePGTerms(p *Prog, r *Reporter) {
 	for t := range scalar {
 		if !seen[t] {
 			r.Bad(p.Pos(fn.Pos()), name, "biscuit."+t+" term", "Term.ToBiscuit builds no biscuit."+t+" term: the "+t+" alternative of the grammar is not converted (or is converted outside the enumerated idiom)")
+		}
+	}
+}
+
+// rulePRFormat: the text of a block contains strings chosen by whoever wrote the token. If printed
+// content ever becomes the *format* argument of a fmt function, a '%' inside a string literal is read as
+// a verb ("50% off" prints as "50%!o(MISSING)ff"): the printed block no longer parses back to what is
+// enforced. Every format argument must be a constant, a phi of such, or an element of a package-level
+// table (the idiom of a format table indexed by the operator).
+func rulePRFormat(p *Prog, r *Reporter) {
+	globalP = p
+	formatArg := map[string]int{"fmt.Sprintf": 0, "fmt.Errorf": 0, "fmt.Printf": 0, "fmt.Fprintf": 1, "fmt.Sscanf": 1, "fmt.Fscanf": 1}
+	var constant func(v ssa.Value, depth int) bool
+	constant = func(v ssa.Value, depth int) bool {
+		if depth > 6 {
+			return false
+		}
+		switch x := v.(type) {
+		case *ssa.Const:
+			return true
+		case *ssa.Phi:
+			for _, e := range x.Edges {
+				if !constant(e, depth+1) {
+					return false
+				}
+			}
+			return true
+		case *ssa.Lookup: // table[key] on a package-level map
+			if ld, ok := x.X.(*ssa.UnOp); ok && ld.Op == token.MUL {
+				_, isG := ld.X.(*ssa.Global)
+				return isG
+			}
+		case *ssa.Extract:
+			if lk, ok := x.Tuple.(*ssa.Lookup); ok && x.Index == 0 {
+				return constant(lk, depth+1)
+			}
+		case *ssa.UnOp: // table[i] on a package-level array / slice
+			if x.Op == token.MUL {
+				if ia, ok := x.X.(*ssa.IndexAddr); ok {
+					switch base := ia.X.(type) {
+					case *ssa.Global:
+						return true
+					case *ssa.UnOp:
+						_, isG := base.X.(*ssa.Global)
+						return base.Op == token.MUL && isG
+					}
+				}
+			}
+		}
+		return false
+	}
+	for _, fn := range p.funcsIn("biscuit", "datalog", "parser") {
+		for _, b := range fn.Blocks {
+			for _, in := range b.Instrs {
+				c, ok := in.(ssa.CallInstruction)
+				if !ok {
+					continue
+				}
+				f := c.Common().StaticCallee()
+				if f == nil {
+					continue
+				}
+				idx, isFmt := formatArg[calleeName(f)]
+				if !isFmt || idx >= len(c.Common().Args) {
+					continue
+				}
+				r.Check(constant(c.Common().Args[idx], 0), p.instrPos(in), p.FuncName(fn), "format of "+calleeName(f), "constant format string", "the format argument of "+calleeName(f)+" is computed ("+p.D(c.Common().Args[idx])+"): text that comes from a token or from the caller is interpreted as a format, so a '%' in a string literal garbles the printed block (and an error message)")
+			}
 		}
 	}
 }
